@@ -1,6 +1,95 @@
+''' Virtual message bus.
+
+Every BusConnection stands for one process.  A process owns well-known names
+(dbus.service.BusName) and exports objects (dbus.service.Object).  A proxy
+obtained with get_object(name, path) calls the exported method of whichever
+connection owns the name *now*:
+
+* the arguments are marshalled against the method's declared in_signature and
+  arrive as dbus types, the return value is marshalled against out_signature
+  and arrives as dbus types (byte arrays as Array of Byte), as with
+  dbus-python's default proxies;
+* the method body runs inside the main-loop context of the process that
+  exported the object (the caller blocks, as for a synchronous call);
+* an exception in the method, a missing object / method or an unowned name
+  arrive at the caller as DBusException.
+
+A signal emitted by an exported object is queued, in emission order, to every
+matching connect_to_signal() subscription and handled by a default-priority
+source of the subscriber's main-loop context (never inside the emitter).
+
+The bus name 'org.freedesktop.DBus' answers NameHasOwner and emits
+NameOwnerChanged.  With nothing registered (the single-agent worlds) a proxy
+call fails as "name has no owner", which is what they rely on.
+'''
+from .exceptions import DBusException
+from ._record import RECORDER
+
 BUS_SESSION = 0
 BUS_SYSTEM = 1
 BUS_STARTER = 2
+DAEMON = 'org.freedesktop.DBus'
+
+
+class VirtualBus(object):
+    def __init__(self):
+        self.reset()
+
+    def reset(self):
+        self.names = {}           # well-known name -> BusConnection
+        self.subscriptions = []   # _Subscription
+        self.calls = []           # log of proxy calls: dict(service, path, member, args, error)
+        self.call_depth = 0
+
+    def own(self, name, conn):
+        old = self.names.get(name)
+        if old is conn:
+            return
+        if old is not None:
+            raise DBusException('name %s already owned' % name, name='org.freedesktop.DBus.Error.NameExists')
+        self.names[name] = conn
+        self.emit(None, '/org/freedesktop/DBus', DAEMON, 'NameOwnerChanged', [name, '', conn.unique_name], DAEMON)
+
+    def release(self, name):
+        conn = self.names.pop(name, None)
+        if conn is not None:
+            self.emit(None, '/org/freedesktop/DBus', DAEMON, 'NameOwnerChanged', [name, conn.unique_name, ''], DAEMON)
+
+    def emit(self, conn, path, iface, member, args, service=None):
+        ''' Route a signal from ``conn`` (None for the daemon) to its subscribers. '''
+        from vlib import simloop
+        for sub in list(self.subscriptions):
+            if not sub.active or sub.member != member or sub.path != path:
+                continue
+            if sub.iface is not None and sub.iface != iface:
+                continue
+            if service is None:
+                if self.names.get(sub.service) is not conn:
+                    continue
+            elif sub.service != service:
+                continue
+            sub.ctx._add(simloop.Source('dbus-signal', simloop.PRIO_DEFAULT, _deliver, (sub, list(args))))
+
+
+class _Subscription(object):
+    def __init__(self, service, path, iface, member, handler, ctx):
+        self.service, self.path, self.iface, self.member, self.handler, self.ctx = service, path, iface, member, handler, ctx
+        self.active = True
+
+    def remove(self):
+        self.active = False
+        if self in VBUS.subscriptions:
+            VBUS.subscriptions.remove(self)
+
+
+def _deliver(sub, args):
+    if sub.active:
+        sub.handler(*args)
+    return False
+
+
+VBUS = VirtualBus()
+_counter = [0]
 
 
 class _Proxy(object):
@@ -10,29 +99,95 @@ class _Proxy(object):
         self._path = path
         self.signal_handlers = []
 
-    def connect_to_signal(self, name, handler, **kwargs):
-        self.signal_handlers.append((name, handler, kwargs))
-        return None
-
-    def NameHasOwner(self, _name):
-        return False
+    def connect_to_signal(self, name, handler, dbus_interface=None, **kwargs):
+        from vlib import simloop
+        self.signal_handlers.append((name, handler, dict(kwargs, dbus_interface=dbus_interface)))
+        sub = _Subscription(self._service, self._path, dbus_interface, name, handler, simloop.current())
+        VBUS.subscriptions.append(sub)
+        return sub
 
     def __getattr__(self, name):
         if name.startswith('_'):
             raise AttributeError(name)
 
-        def call(*_a, **_k):
-            raise RuntimeError('no remote D-Bus objects in the virtual bus (%s.%s)' % (self._path, name))
+        def call(*args, **_kw):
+            return self._call(name, args)
         return call
+
+    def _call(self, member, args):
+        from vlib import dbusmodel, simloop
+        if self._service == DAEMON:
+            if member == 'NameHasOwner':
+                return bool(args[0] in VBUS.names)
+            raise DBusException('daemon method %s is not modelled' % member, name='org.freedesktop.DBus.Error.UnknownMethod')
+        entry = dict(service=self._service, path=self._path, member=member, args=args, error=None)
+        VBUS.calls.append(entry)
+
+        def fail(err_name, text):
+            entry['error'] = err_name
+            return DBusException(text, name=err_name)
+        owner = VBUS.names.get(self._service)
+        if owner is None:
+            raise fail('org.freedesktop.DBus.Error.ServiceUnknown', 'The name %s was not provided by any .service files' % self._service)
+        obj = owner.objects.get(self._path)
+        if obj is None or not list(obj.locations):
+            raise fail('org.freedesktop.DBus.Error.UnknownObject', 'No such object path %r' % self._path)
+        meth = getattr(obj, member, None)
+        if meth is None or not getattr(meth, '_dbus_is_method', False):
+            raise fail('org.freedesktop.DBus.Error.UnknownMethod', 'Method "%s" on %s does not exist' % (member, self._path))
+        in_sig = meth._dbus_in_signature
+        if in_sig is not None:
+            # the caller's library refuses values that do not fit the introspected signature (TypeError etc. at the caller)
+            args = dbusmodel.convert(in_sig, args)
+        ctx = getattr(obj, '_vbus_ctx', None) or simloop.current()
+        VBUS.call_depth += 1
+        try:
+            with simloop.entered(ctx):
+                try:
+                    ret = meth(*args)
+                except DBusException as err:
+                    entry['error'] = err.get_dbus_name() or 'DBusException'
+                    raise
+                except Exception as err:
+                    # dbus.service turns it into an error reply named after the exception class
+                    raise fail('org.freedesktop.DBus.Python.%s.%s' % (type(err).__module__, type(err).__name__),
+                               '%s: %s' % (type(err).__name__, err))
+        finally:
+            VBUS.call_depth -= 1
+        out_sig = meth._dbus_out_signature
+        error = None
+        value = ret
+        if out_sig:
+            parts = dbusmodel.split_signature(out_sig)
+            try:
+                if len(parts) == 1:
+                    value = dbusmodel.convert_one(parts[0], ret)
+                else:
+                    value = tuple(dbusmodel.convert(out_sig, ret))
+            except (TypeError, ValueError, OverflowError) as err:
+                error = '%s: %s' % (type(err).__name__, err)
+        else:
+            value = None
+        RECORDER.add(kind='return', obj=obj, path=self._path, member=member, args=tuple(args), signature=out_sig,
+                     value=ret, error=error, via='bus')
+        if error is not None:
+            # the reply cannot be built: the caller gets an error reply
+            raise fail('org.freedesktop.DBus.Python.TypeError', error)
+        return value
 
 
 class BusConnection(object):
     def __init__(self, address_or_type=BUS_SESSION, mainloop=None):
         self.address_or_type = address_or_type
         self.objects = {}
+        _counter[0] += 1
+        self.unique_name = ':1.%d' % _counter[0]
 
     def get_object(self, service, path, **_k):
         return _Proxy(self, service, path)
+
+    def get_unique_name(self):
+        return self.unique_name
 
     def close(self):
         pass
